@@ -15,6 +15,15 @@ import numpy as np
 from harness import common as C
 from harness import pcovr_common as P
 
+MAX_REPORTS = 25          # replay files written per run (a broken tree fails hundreds of cases)
+
+
+def report(ctx, *a, **kw):
+    if len(ctx.violations) < MAX_REPORTS:
+        C.report_violation(ctx, *a, **kw)
+    else:
+        ctx.suppressed = getattr(ctx, "suppressed", 0) + 1
+
 KEY_PRE1D = "pcovr_precomputed_1d_y_sample_space"
 CROSS_NAMES = ["pcovr_covariance", "pcovr_kernel", "T@T.T f/s", "inverse_transform(T) f/s",
                "predict(T=T) f/s", "singular_values_ f/s"]
@@ -47,7 +56,10 @@ def run_fit(ds, cfg):
         est, Ym, Yh, W = P.fit_impl(ds, cfg)
     except Exception as e:                      # noqa
         return dict(error=type(e).__name__, error_msg=str(e)[:200])
-    obs, T = P.observe(est, ds, Ym)
+    try:
+        obs, T = P.observe(est, ds, Ym)
+    except Exception as e:                      # noqa  (a public method of the fitted estimator raised)
+        return dict(error=type(e).__name__, error_msg="after a successful fit, transform/predict/score raised: " + str(e)[:160])
     return dict(est=est, Ym=Ym, Yh=Yh, W=W, obs=obs, T=T)
 
 
@@ -129,6 +141,56 @@ def route_oracle(ds, cfg, quick_solvers=("arpack", "randomized")):
                 return "svd_solver=%s and full disagree in %s space on %s (max dev %.3g)" % (
                     (solver, sp) + bad), info
     return None, info
+
+
+def solver_probe(ctx, stats, viol):
+    """Truncated solvers on LARGER matrices with a rapidly decaying spectrum, where the randomized
+    sketch (k + 10 columns) does NOT span the matrix: the retained components are well separated, so
+    arpack and randomized must agree with the full solver.  Implementation side only."""
+    g = P.np_rng(ctx.rng)
+    nprobe = 8 if ctx.quick else 60
+    stats["solver_probe_fits"] = 0
+    for _ in range(nprobe):
+        n, m = ctx.rng.choice([(40, 30), (30, 40), (45, 28), (26, 44)])
+        r = min(n, m)
+        U, _ = np.linalg.qr(g.normal(size=(n, r)))
+        V, _ = np.linalg.qr(g.normal(size=(m, r)))
+        sig = 10.0 * 0.5 ** np.arange(r)
+        X = (U * sig) @ V.T
+        X = X - X.mean(axis=0)
+        p = ctx.rng.choice([1, 2])
+        Wt = g.normal(size=(m, p))
+        Y = X @ Wt + 0.1 * g.normal(size=(n, p))
+        Y = Y - Y.mean(axis=0)
+        Xn = g.normal(size=(3, m))
+        ds = dict(family="decay", n=n, m=m, p=p, q=3, rank_made=None, X=X, Y=Y, Xn=Xn, Yn=Xn @ Wt, centred=True)
+        cfg = P.gen_config(ctx.rng, ds, mixing=ctx.rng.choice([1.0, 0.9, 0.5]), k=ctx.rng.choice([2, 3, 4]),
+                           reg="ridge")
+        cfg["alpha"] = 1e-3
+        cfg["y1d"] = False
+        for sp in ("feature", "sample"):
+            full = run_fit(ds, dict(cfg, space=sp, solver="full"))
+            if "error" in full:
+                continue
+            Sf = full["est"].singular_values_ ** 2
+            for solver in ("randomized", "arpack"):
+                r2 = run_fit(ds, dict(cfg, space=sp, solver=solver))
+                stats["solver_probe_fits"] += 1
+                if "error" in r2:
+                    viol.append(("svd_solver=%s in %s space raised on a %dx%d decaying-spectrum matrix: %s"
+                                 % (solver, sp, n, m, r2["error_msg"]), dict(kind="solver_probe", n=n, m=m, cfg=cfg)))
+                    continue
+                S2 = r2["est"].singular_values_ ** 2
+                if np.abs(S2 - Sf).max() > 1e-6 * Sf[0]:
+                    viol.append(("svd_solver=%s and full disagree on the retained eigenvalues of a %dx%d matrix with "
+                                 "spectrum 10*0.5^i (k=%d, %s space): %s vs %s" % (solver, n, m, cfg["k"], sp, S2, Sf),
+                                 dict(kind="solver_probe", n=n, m=m, cfg=cfg, X=X.tolist(), Y=Y.tolist())))
+                    continue
+                bad = compare_obs(full["obs"], r2["obs"], [3, 5, 6], rtol=1e-5, atol=1e-7)
+                if bad:
+                    viol.append(("svd_solver=%s and full disagree on %s (max dev %.3g) for a %dx%d decaying-spectrum "
+                                 "matrix, k=%d, %s space" % ((solver,) + bad + (n, m, cfg["k"], sp)),
+                                 dict(kind="solver_probe", n=n, m=m, cfg=cfg, X=X.tolist(), Y=Y.tolist())))
 
 
 def run(ctx):
@@ -226,7 +288,7 @@ def run(ctx):
             if msg:
                 viol.append((ds, cfg, msg, KEY_PRE1D if pre1d else None))
             else:
-                C.report_violation(
+                report(
                     ctx, "correspondence PCovR model vs implementation broken (%s space): outputs %s, oracle hypotheses %s"
                     % (cfg["space"], bad_o, bad_h),
                     dict(case=case_replay(ds, cfg), deviations=r["dev"], residuals=r["res"],
@@ -248,21 +310,25 @@ def run(ctx):
             cross_ok += 1
         else:
             bad = [CROSS_NAMES[i] for i, b in enumerate(flags) if not b and (i < 2 or not masked)]
-            C.report_violation(ctx, "correspondence broken: %s (model routes / pcovr_covariance / pcovr_kernel)" % bad,
+            report(ctx, "correspondence broken: %s (model routes / pcovr_covariance / pcovr_kernel)" % bad,
                                dict(case=case_replay(ds, cfg), deviations=devs, correspondence="c03_cross (Model/PCovR.v)"),
                                found_input=False)
+    probe_viol = []
+    solver_probe(ctx, stats, probe_viol)
+    for msg, rep in probe_viol:
+        report(ctx, "C03 fails on the implementation: " + msg, rep, found_input=True)
     seen = set()
     for ds, cfg, msg, key in viol:
         h = (ds["X"].tobytes(), repr(sorted(cfg.items())), msg)
         if h in seen:
             continue
         seen.add(h)
-        C.report_violation(ctx, "C03 fails on the implementation: " + msg, dict(case=case_replay(ds, cfg)),
+        report(ctx, "C03 fails on the implementation: " + msg, dict(case=case_replay(ds, cfg)),
                            key=key, found_input=True)
     for txt in broken:
-        C.report_violation(ctx, "correspondence shard did not evaluate", dict(coq_output=txt), found_input=False)
+        report(ctx, "correspondence shard did not evaluate", dict(coq_output=txt), found_input=False)
     if not po["ok"]:
-        C.report_violation(ctx, "proof obligations of Properties/C03.v not discharged",
+        report(ctx, "proof obligations of Properties/C03.v not discharged",
                            dict(theorem_file="coq/Properties/C03.v", log=po["log"][-2000:], scan=po["scan"],
                                 disallowed_axioms=po.get("disallowed_axioms")), found_input=False)
     nontrivial = 0
@@ -300,6 +366,22 @@ def run(ctx):
 
 
 def replay(ctx, obj):
+    if obj.get("kind") == "solver_probe":
+        X, Y = np.array(obj["X"]), np.array(obj["Y"])
+        n, m = X.shape
+        ds = dict(family="decay", n=n, m=m, p=Y.shape[1], q=3, rank_made=None, X=X, Y=Y, Xn=X[:3], Yn=Y[:3], centred=True)
+        cfg = obj["cfg"]
+        bad = None
+        for sp in ("feature", "sample"):
+            full = run_fit(ds, dict(cfg, space=sp, solver="full"))
+            for solver in ("randomized", "arpack"):
+                r2 = run_fit(ds, dict(cfg, space=sp, solver=solver))
+                if "error" in r2 or "error" in full:
+                    bad = "a fit raised"
+                elif np.abs(r2["est"].singular_values_ ** 2 - full["est"].singular_values_ ** 2).max() > 1e-6 * full["est"].singular_values_[0] ** 2:
+                    bad = "svd_solver=%s and full disagree on the retained eigenvalues (%s space)" % (solver, sp)
+        print("replay:", bad or "property holds on this input now")
+        return 1 if bad else 0
     c = obj["case"]
     ds = P.ds_from_json(c["dataset"])
     msg, info = route_oracle(ds, c["config"])
